@@ -80,13 +80,37 @@ func run(c *fw.Ctx) {
 		{"person", "AAAWAAAW", 2},
 		{"person", "AAW", 0},
 	}
+	// every Add/Write history up to a length bound on the narrow shape
+	maxL := 5
+	if c.Thorough() {
+		maxL = 8
+	}
+	for l := 1; l <= maxL; l++ {
+		for x := 0; x < 1<<uint(l); x++ {
+			h := make([]byte, l)
+			for i := range h {
+				if x>>uint(i)&1 == 1 {
+					h[i] = 'W'
+				} else {
+					h[i] = 'A'
+				}
+			}
+			for _, page := range []int{1, 2} {
+				wls = append(wls, wl{"mini", string(h), page})
+			}
+		}
+	}
+	c.Bound("history_enumeration", fmt.Sprintf("every Add/Write history of length <= %d on mini, page sizes 1 and 2, plus the fixed workloads", maxL))
 	var bd []string
-	for _, w := range wls {
+	for _, w := range wls[:5] {
 		bd = append(bd, fmt.Sprintf("%s %q page=%d", w.target, w.history, w.page))
 	}
 	c.Bound("workloads", bd)
-	for _, w := range wls {
+	for wi, w := range wls {
 		for cd := 0; cd < 3; cd++ {
+			if wi >= 5 && cd == 2 && !c.Thorough() {
+				continue // enumerated histories: gzip in thorough only
+			}
 			base := wcase{w.target, w.history, w.page, cd, env.SinkPlan{FailAt: -1, FailAt2: -1}}
 			msg, K := runHistory(base)
 			if msg != "" {
@@ -152,7 +176,7 @@ func Main() {
 	fw.Main(fw.Spec{
 		ID:    "C09",
 		Level: "fault_enumeration",
-		Rule: "for every workload (5 Add/Write/Close histories incl. empty Writes and pending records, mini and person) x 3 codecs, the fault-free run's K sink Write calls are counted and for every k < K the k-th call fails as (0, err) transient, (0, err) sticky, (n/2, err) transient, (n/2, err) sticky; thorough adds every pair of transient faults. " +
+		Rule: "for every workload (5 fixed Add/Write/Close histories on mini and person incl. empty Writes and pending records, plus every Add/Write history up to a length bound on mini with page sizes 1 and 2) x codecs, the fault-free run's K sink Write calls are counted and for every k < K the k-th call fails as (0, err) transient, (0, err) sticky, (n/2, err) transient, (n/2, err) sticky; thorough adds every pair of transient faults. " +
 			"Oracle: the API call during which a sink failure occurred returns a non-nil error; no panic. distinct = (workload, codec, plan)",
 		Assumptions: []string{
 			"the caller stops using the writer after the first error it is given (the history is abandoned there)",
